@@ -106,6 +106,38 @@ Definition op_raw_strict (name : string) : opdef :=
        | [VZ T; VZ w], Some o => expect_accepts Z.eqb (raw_strict_expect T w) o
        | _, _ => false end |}.
 
+(** widening: parent and child in one case, args [T, q, b] with |q| < Height T.  Observation
+    [i, s, i', s'] = PathToIndexLoose of q and of q ++ [b].  The specification computes the parent's
+    pair from the enumerated / recursive rank and the child's pair from the parent's by the child rule
+    (left child: next index; right child: after the left subtree of T >> (|q|+1) stored nodes). *)
+Definition c03_child_spec (T : Z) (q : node) (b : bool) : val :=
+  let h := c03_h T in
+  let i := spec_rank T h q in
+  let s := Z.b2z (stored T q) in
+  VL [VZ i; VZ s;
+      VZ (i + s + (if b then T / 2 ^ (zlen q + 1) else 0));
+      VZ (Z.b2z (Z.testbit T (zlen q + 1)))].
+
+Definition op_child (name : string) (dbg : bool) : opdef :=
+  {| op_name := name;
+     op_run := fun a => match a with
+       | [T; q; VZ b] => match as_z T, c03_node q with
+           | Some T, Some q =>
+               let qb := (q ++ [negb (b =? 0)])%list in
+               if c03_dom T qb then
+                 let f := if dbg then PathToIndexLoose_debug else PathToIndexLoose in
+                 match f T (c03_word T q), f T (c03_word T qb) with
+                 | Some (i, s), Some (i', s') => VL [VZ i; VZ s; VZ i'; VZ s']
+                 | _, _ => VPanic end
+               else VBad
+           | _, _ => VBad end
+       | _ => VBad end;
+     op_spec := fun_spec (fun a => match a with
+       | [T; q; VZ b] => match as_z T, c03_node q with
+           | Some T, Some q => c03_child_spec T q (negb (b =? 0))
+           | _, _ => VBad end
+       | _ => VBad end) |}.
+
 Definition ops_C03 : list opdef := [
   (* any node: (index, has) *)
   op_loose "bmtree.PathToIndexLoose" false;
@@ -115,5 +147,8 @@ Definition ops_C03 : list opdef := [
   op_strict "bmtree.PathToIndex/debug" true;
   (* raw arguments, debug build: panic exactly outside the domain *)
   op_raw_loose "bmtree.PathToIndexLoose/debug-raw";
-  op_raw_strict "bmtree.PathToIndex/debug-raw"
+  op_raw_strict "bmtree.PathToIndex/debug-raw";
+  (* parent and child in one case: the child rule *)
+  op_child "bmtree.PathToIndexLoose/child" false;
+  op_child "bmtree.PathToIndexLoose/child/debug" true
 ].
